@@ -31,16 +31,28 @@ def gen_sim(n, b, pool, num, seed):
     return r
 
 
-def session(sc):
+def session(sc, attempts=2, limit=240):
+    """one real session in its own process group; a session that does not finish (HDriver: Terminates) is tried once more and then
+    reported as such - it is a behaviour of the code, not a failure of the harness"""
     e = driver_env()
     e[GUARD] = "1"
-    p = subprocess.run([PY, os.path.join(VERIF, "harness", "drivers", "drv_session.py")], input=json.dumps(sc), stdout=subprocess.PIPE,
-                       stderr=subprocess.PIPE, text=True, env=e, timeout=600, cwd=scratch())
-    try:
-        out = json.loads(p.stdout.strip().splitlines()[-1])
-    except Exception:  # noqa: BLE001
-        raise MachineryError("session driver failed: %s" % p.stderr[-1500:])
-    return out
+    for _ in range(attempts):
+        p = subprocess.Popen([PY, os.path.join(VERIF, "harness", "drivers", "drv_session.py")], stdin=subprocess.PIPE, stdout=subprocess.PIPE,
+                             stderr=subprocess.PIPE, text=True, env=e, cwd=scratch(), start_new_session=True)
+        try:
+            so, se = p.communicate(json.dumps(sc), timeout=limit)
+        except subprocess.TimeoutExpired:
+            try:
+                os.killpg(p.pid, 9)
+            except OSError:
+                pass
+            p.communicate()
+            continue
+        try:
+            return json.loads(so.strip().splitlines()[-1])
+        except Exception:  # noqa: BLE001
+            raise MachineryError("session driver failed: %s" % se[-1500:])
+    return {"events": [], "exc": "", "hang": True}
 
 
 def validate(args):
@@ -84,7 +96,7 @@ def run(tier, seed, selftest=False, replay=None):
     T("executed %d sessions" % len(outs))
     groups = {}
     for i, (sc, o) in enumerate(zip(scs, outs)):
-        groups.setdefault((sc["n"], sc["batch"], sc["pool"]), []).append({"id": "s%d" % i, "scenario": sc, "events": o["events"], "exc": o["exc"]})
+        groups.setdefault((sc["n"], sc["batch"], sc["pool"]), []).append({"id": "s%d" % i, "scenario": sc, "events": o["events"], "exc": o["exc"], "hang": bool(o.get("hang"))})
     d = subdir("c15")
     files = []
     for key, sess in groups.items():
@@ -111,6 +123,8 @@ def run(tier, seed, selftest=False, replay=None):
             if j is None:
                 raise MachineryError("no verdict for session %s" % s["id"])
             clauses = sorted({c[1] for c in j["bad"]})
+            if s["hang"]:
+                clauses = ["Terminates"]          # nothing else can be judged: the session was killed after 2 x 240 s
             if s["exc"]:
                 clauses.append("SessionRaised")
             if not clauses and not any(e["ev"] == "end" for e in s["events"]):
